@@ -11,6 +11,7 @@ import (
 	"github.com/vicanso/elton"
 	"github.com/vicanso/pike/cache"
 	"github.com/vicanso/pike/compress"
+	"github.com/vicanso/pike/config"
 
 	"pikemc/env"
 )
@@ -155,67 +156,71 @@ func init() {
 		if c.Want("store-once") && c.Shard == 0 {
 			st := c.Stat("store-once", "enumeration")
 			st.Bounds = "origin encoding {identity,gzip,br} x size {below,above 1024} x type {text,image}: Cacheable then hits for every client"
+			compress.Reset([]config.CompressConfig{{Name: "lv1", Levels: map[string]uint{"gzip": 1, "br": 1}}})
 			for _, oenc := range []string{"", "gzip", "br"} {
 				for _, L := range []int{100, 3000} { // raw text is 2L bytes
 					for _, ct := range []string{"text/plain", "image/png"} {
-						raw := []byte(fmt.Sprintf("%x", lcg(L, 9))) // hex text: compressible ~2:1, stays above the threshold when compressed
-						data := refEncode(oenc, raw)
-						hdr := http.Header{"Content-Type": {ct}}
-						resp, err := cache.NewHTTPResponse(200, hdr, oenc, data)
-						if err != nil {
-							c.Violation("store-once", "new-response-error", err.Error(), nil, nil, nil)
-							continue
-						}
-						resp.CompressMinLength = 1024
-						hc := cache.VerifNewEntry()
-						hc.Get()
-						hc.Cacheable(resp, 60)
-						st.Execs++
-						kase := map[string]interface{}{"origin_encoding": oenc, "len": L, "type": ct}
-						compressible := ct == "text/plain" && len(data) > 1024 // the documented rule compares the stored variant's size
-						if compressible {
-							if len(resp.GzipBody) == 0 || len(resp.BrBody) == 0 || len(resp.RawBody) != 0 {
-								c.Violation("store-once", "not-precompressed", fmt.Sprintf("stored variants gzip=%d br=%d raw=%d", len(resp.GzipBody), len(resp.BrBody), len(resp.RawBody)), nil, kase, nil)
-								continue
-							}
-							if resp.CompressSrv != compress.BestCompression {
-								c.Violation("store-once", "profile-not-best", resp.CompressSrv, nil, kase, nil)
-							}
-							best := compress.Get(compress.BestCompression)
-							if oenc != "gzip" {
-								if wantG, _ := best.Gzip(raw); !bytes.Equal(wantG, resp.GzipBody) {
-									c.Violation("store-once", "gzip-not-best-profile-bytes", fmt.Sprintf("stored %d bytes, best profile gives %d", len(resp.GzipBody), len(wantG)), nil, kase, nil)
-								}
-							}
-							if oenc != "br" {
-								if wantB, _ := best.Brotli(raw); !bytes.Equal(wantB, resp.BrBody) {
-									c.Violation("store-once", "br-not-best-profile-bytes", fmt.Sprintf("stored %d bytes, best profile gives %d", len(resp.BrBody), len(wantB)), nil, kase, nil)
-								}
-							}
-						}
-						for _, ae := range c13Clients {
-							_, r2 := hc.Get()
-							if r2 == nil {
-								c.Violation("store-once", "no-hit", "", nil, kase, nil)
-								break
-							}
-							enc, body, _, _, err := fillVia(r2, ae)
-							st.Execs++
+						for _, srvProfile := range []string{"", "lv1"} {
+							raw := []byte(fmt.Sprintf("%x", lcg(L, 9))) // hex text: compressible ~2:1, stays above the threshold when compressed
+							data := refEncode(oenc, raw)
+							hdr := http.Header{"Content-Type": {ct}}
+							resp, err := cache.NewHTTPResponse(200, hdr, oenc, data)
 							if err != nil {
-								c.Violation("store-once", "fill-error", err.Error(), nil, kase, nil)
+								c.Violation("store-once", "new-response-error", err.Error(), nil, nil, nil)
 								continue
 							}
-							dec, derr := refDecode(enc, body)
-							if derr != nil || !bytes.Equal(dec, raw) {
-								c.Violation("store-once", "body-altered", fmt.Sprintf("client %q enc %q err %v", ae, enc, derr), nil, kase, nil)
-							}
-							if compressible && enc != "" {
-								stored := r2.GzipBody
-								if enc == "br" {
-									stored = r2.BrBody
+							resp.CompressMinLength = 1024
+							resp.CompressSrv = srvProfile // what the proxy stamps on every response: the server's own profile
+							hc := cache.VerifNewEntry()
+							hc.Get()
+							hc.Cacheable(resp, 60)
+							st.Execs++
+							kase := map[string]interface{}{"origin_encoding": oenc, "len": L, "type": ct, "server_profile": srvProfile}
+							compressible := ct == "text/plain" && len(data) > 1024 // the documented rule compares the stored variant's size
+							if compressible {
+								if len(resp.GzipBody) == 0 || len(resp.BrBody) == 0 || len(resp.RawBody) != 0 {
+									c.Violation("store-once", "not-precompressed", fmt.Sprintf("stored variants gzip=%d br=%d raw=%d", len(resp.GzipBody), len(resp.BrBody), len(resp.RawBody)), nil, kase, nil)
+									continue
 								}
-								if len(body) == 0 || len(stored) == 0 || &body[0] != &stored[0] {
-									c.Violation("store-once", "recompressed-per-request", fmt.Sprintf("client %q got a %s body that is not the stored slice", ae, enc), nil, kase, nil)
+								if resp.CompressSrv != compress.BestCompression {
+									c.Violation("store-once", "profile-not-best", resp.CompressSrv, nil, kase, nil)
+								}
+								best := compress.Get(compress.BestCompression)
+								if oenc != "gzip" {
+									if wantG, _ := best.Gzip(raw); !bytes.Equal(wantG, resp.GzipBody) {
+										c.Violation("store-once", "gzip-not-best-profile-bytes", fmt.Sprintf("stored %d bytes, best profile gives %d", len(resp.GzipBody), len(wantG)), nil, kase, nil)
+									}
+								}
+								if oenc != "br" {
+									if wantB, _ := best.Brotli(raw); !bytes.Equal(wantB, resp.BrBody) {
+										c.Violation("store-once", "br-not-best-profile-bytes", fmt.Sprintf("stored %d bytes, best profile gives %d", len(resp.BrBody), len(wantB)), nil, kase, nil)
+									}
+								}
+							}
+							for _, ae := range c13Clients {
+								_, r2 := hc.Get()
+								if r2 == nil {
+									c.Violation("store-once", "no-hit", "", nil, kase, nil)
+									break
+								}
+								enc, body, _, _, err := fillVia(r2, ae)
+								st.Execs++
+								if err != nil {
+									c.Violation("store-once", "fill-error", err.Error(), nil, kase, nil)
+									continue
+								}
+								dec, derr := refDecode(enc, body)
+								if derr != nil || !bytes.Equal(dec, raw) {
+									c.Violation("store-once", "body-altered", fmt.Sprintf("client %q enc %q err %v", ae, enc, derr), nil, kase, nil)
+								}
+								if compressible && enc != "" {
+									stored := r2.GzipBody
+									if enc == "br" {
+										stored = r2.BrBody
+									}
+									if len(body) == 0 || len(stored) == 0 || &body[0] != &stored[0] {
+										c.Violation("store-once", "recompressed-per-request", fmt.Sprintf("client %q got a %s body that is not the stored slice", ae, enc), nil, kase, nil)
+									}
 								}
 							}
 						}
